@@ -42,6 +42,7 @@ const LK_RET: u8 = 2;
 const LK_NOTIFY: u8 = 3;
 const LK_TOK: u8 = 4;
 const LK_FWD: u8 = 5;
+const LK_ORPH: u8 = 6;
 
 fn ev(s: String) {
     if !MUTE.with(|m| m.get()) {
@@ -294,11 +295,16 @@ fn bad(code: u32) {
 // ---------------------------------------------------------------------------------------------
 // the scripted actor
 
-struct ValTok(u32);
+struct ValTok(u32, bool); // (actor, orphan: returned by an init step that also asked to stop / fail)
 impl Drop for ValTok {
     fn drop(&mut self) {
-        ev(format!("valdrop {}", self.0));
-        consumed(LK_VAL, self.0);
+        if self.1 {
+            ev(format!("orphdrop {}", self.0));
+            consumed(LK_ORPH, self.0);
+        } else {
+            ev(format!("valdrop {}", self.0));
+            consumed(LK_VAL, self.0);
+        }
     }
 }
 
@@ -324,11 +330,18 @@ impl Act {
         let die = fr.die;
         drop(fr);
         drop(guard);
-        if ready && !die {
-            ev(format!("ready {}", a));
-            created(LK_VAL, a);
+        if ready {
+            // with a stop / fail requested the value is never installed: apply_prep terminates the actor and
+            // drops the value afterwards
+            if die {
+                ev(format!("orphnew {}", a));
+                created(LK_ORPH, a);
+            } else {
+                ev(format!("ready {}", a));
+                created(LK_VAL, a);
+            }
             Some(Act {
-                tok: ValTok(a),
+                tok: ValTok(a, die),
                 id: a,
                 held: Vec::new(),
                 slab: ActorOwnSlab::new(),
@@ -574,6 +587,14 @@ fn make_notifier(a: u32, n: &Notif, fr: &mut Frame) -> Ret<StopCause> {
 // ---------------------------------------------------------------------------------------------
 // the interpreter of acts
 
+fn tk_chr(k: Tk) -> char {
+    match k {
+        Tk::F => 'f',
+        Tk::X => 'x',
+        Tk::N => 'n',
+    }
+}
+
 fn tk_code(k: Tk) -> u8 {
     match k {
         Tk::F => 0,
@@ -651,6 +672,7 @@ fn do_act(act: &Act_, ctx: &mut Ctx<'_, '_>, fr: &mut Frame) {
             }
             let clo = make_clo(*c, fr);
             sub(&clo, 't');
+            ev(format!("tvar {} {} {}", tk_chr(*k), v, clo.guard.uid));
             TQ.with(|tq| tq.borrow_mut().insert((tk_code(*k), *v), clo.guard.q.clone()));
             let core = ctx.core().unwrap();
             let key = match k {
@@ -666,6 +688,7 @@ fn do_act(act: &Act_, ctx: &mut Ctx<'_, '_>, fr: &mut Frame) {
             }
             let clo = make_clo(*c, fr);
             sub(&clo, 't');
+            ev(format!("tvar f {} {}", v, clo.guard.uid));
             TQ.with(|tq| tq.borrow_mut().insert((0, *v), clo.guard.q.clone()));
             let core = ctx.core().unwrap();
             let key = after!(Duration::from_millis((*d).max(0) as u64), [core], |s| run_plain(
@@ -689,6 +712,7 @@ fn do_act(act: &Act_, ctx: &mut Ctx<'_, '_>, fr: &mut Frame) {
                     let before = core.timer_max_active(key);
                     if !before {
                         sub(&clo, 't');
+                        ev(format!("tvar x {} {}", v, clo.guard.uid));
                         TQ.with(|tq| tq.borrow_mut().insert((1, *v), clo.guard.q.clone()));
                     }
                     timer_max!(&mut key, at(*t), [core], |s| run_plain(s, clo));
@@ -702,6 +726,7 @@ fn do_act(act: &Act_, ctx: &mut Ctx<'_, '_>, fr: &mut Frame) {
                     let before = core.timer_min_active(key);
                     if !before {
                         sub(&clo, 't');
+                        ev(format!("tvar n {} {}", v, clo.guard.uid));
                         TQ.with(|tq| tq.borrow_mut().insert((2, *v), clo.guard.q.clone()));
                     }
                     timer_min!(&mut key, at(*t), [core], |s| run_plain(s, clo));
@@ -748,7 +773,7 @@ fn do_act(act: &Act_, ctx: &mut Ctx<'_, '_>, fr: &mut Frame) {
                     }
                 }
             }
-            ev(format!("bool 2 {}", b as u8));
+            ev(format!("tdel {} {} {}", tk_chr(*k), v, b as u8));
         }
         Act_::TAct(k, v) => {
             if ctx.core().is_none() || *k == Tk::F {
